@@ -275,3 +275,7 @@ def run(ctx):
     n = 800 if ctx.tier == "quick" else 16000
     stream.run_stream(ctx, "factor", "harness.props.c11", "gen_cases", n, per_chunk=50,
                       canon_kw=dict(structure=True), raise_kinds=False)
+
+
+def replay(ctx, payload):
+    return stream.replay(ctx, payload, canon_kw=dict(structure=True))
